@@ -199,7 +199,7 @@ CLAIMS = {
 }
 
 TECHNIQUE = ("Lean 4 machine-checked proof over a model of the code; tie = translators (funfit.py, dataset tables, vector "
-             "arithmetic, the loops of the window strategies, the two-pointer scans, the effect order of the Weaver methods, the protocol of the dataset loader, the array helpers, the content of the Weaver methods, the process functions, the control flow of the matching, the parameter handling of the recreate strategies and the interval view regenerated into Lean and proved equal to the model) + "
+             "arithmetic, the loops of the window strategies, the two-pointer scans, the effect order of the Weaver methods, the protocol of the dataset loader, the array helpers, the content of the Weaver methods, the process functions, the control flow of the matching, the parameter handling of the recreate strategies, the interval view, the accessors / factories / value slicing of the Weaver, the smoothing glue and the sampling-function plumbing regenerated into Lean and proved equal to the model) + "
              "differential correspondence of the native model driver with /repo on generated inputs, memory layouts, "
              "object histories, thread schedules and interpreter settings")
 
@@ -267,6 +267,19 @@ def main():
                      "row layouts, nr_of_full_intervals, the delegations to the array helpers) is regenerated from "
                      "interval.py's AST by translator T13 and proved equal to the model for all arrays on every run "
                      "(TWV.Tie.IntervalArray).")
+        if pid in ("C09", "C11", "C16", "C20"):
+            text += (" The remaining Weaver methods - slice_by_value (np.where(self.x == v)[0], the two refusals, the "
+                     "delegation to slice_by_index), from_2d_array (the shape test, the two columns), from_csv (delimiter and "
+                     "dtype handed to loadtxt), to_2d_array, get / get_original / get_reference, __len__ and to_function - are "
+                     "regenerated from weaver.py's AST by translator T14 and proved equal to Weaver.sliceByValue / from2dArr / "
+                     "to2dArray / get / toFunction for all states and arguments on every run (TWV.Tie.WeaverIO).")
+        if pid in ("C16", "C01", "C04"):
+            text += (" process.spline_smooth (the default smoothing condition len(y) * std(y)**2, the condition handed to "
+                     "splrep unchanged), the optional final smoothing at the end of the three matching functions (none when s "
+                     "is None; otherwise fitted on and evaluated at the working abscissae) and the sampling-function plumbing "
+                     "of FunctionRFA / CubicSplineRFA (constructors, _get_sampling_function, the default supplier) are "
+                     "regenerated from process.py / match.py / rfa.py by translator T15 and proved equal to the model for all "
+                     "inputs on every run (TWV.Tie.SmoothGlue).")
         checks.append({
             "property_id": pid,
             "quick_cmd": f"./check {pid} --tier quick",
